@@ -132,6 +132,15 @@ def corpus(tier):
                         reach={'bob': {'direct': reach, 'delay': 6.0 if reach == 'slow' else None, 'pierce': False}},
                         stop={'transfer': 0, 'op': op, 'k': 99, 'plus_iter': 0, 'fallback_at': t},
                         offer_on_stop=d, slow_listener={'state': 'CLOSING', 'delay': 0.5}, chunk_delay=0.01))
+    # pause first, abort / remove a little later (the call starts from PAUSED)
+    for direction in ('down', 'up'):
+        for op in ('abort', 'remove'):
+            for k in (0, 2, 4, 6, 9):
+                for gap in (0.0, 1.0):
+                    out.append(base_plan(
+                        transfers=[{'id': 0, 'dir': direction, 'peer': 'bob', 'size': 40000, 'at': 0.0}],
+                        stop={'transfer': 0, 'op': op, 'k': k, 'plus_iter': 0, 'fallback_at': 25.0, 'pre_pause': gap},
+                        chunk_delay=0.01))
     # duplicated PeerTransferRequest handled back-to-back
     for op in OPS:
         for k in range(2, 9):
@@ -174,6 +183,8 @@ def generate(rng, index, tier):
     if rng.random() < 0.25:
         plan['spontaneous'] = rng.choice([0.0, 0.05, 0.5, 3.0, 12.0])
     target = transfers[plan['stop']['transfer']]
+    if plan['stop']['op'] in ('abort', 'remove') and rng.random() < 0.15:
+        plan['stop']['pre_pause'] = rng.choice([0.0, 0.01, 1.0, 6.0])
     if target['dir'] == 'down' and rng.random() < 0.2:
         plan['offer_on_stop'] = rng.choice([0.0, 0.001, 0.05, 0.3])
         plan['slow_listener'] = {'state': rng.choice(('CLOSING', 'CLOSED')), 'delay': rng.choice([0.01, 0.1, 0.5])}
@@ -200,6 +211,8 @@ def simplify(plan):
         yield dict(plan, dup_request=0)
     if plan['stop'].get('plus_iter'):
         yield dict(plan, stop=dict(plan['stop'], plus_iter=0))
+    if plan['stop'].get('pre_pause') is not None:
+        yield dict(plan, stop={k: v for k, v in plan['stop'].items() if k != 'pre_pause'})
     if plan.get('mode') != 'race':
         yield dict(plan, mode='race')
 
@@ -361,6 +374,20 @@ def _run(world: World, plan):
             return
         stop_state['issued'] = True
         op = plan['stop']['op']
+        pre = plan['stop'].get('pre_pause')
+        if pre is not None and op in ('abort', 'remove'):
+            # the user pauses first and aborts / removes a little later: the judged call starts from PAUSED
+            async def two_steps():
+                world.net.fired['pause_before_stop'] += 1
+                c = world.call(alice, 'pre-pause', tm.pause, tr)
+                await c.task
+                await asyncio.sleep(float(pre))
+                do_stop(tr, op)
+            world.keep_alive.append(asyncio.ensure_future(two_steps()))
+        else:
+            do_stop(tr, op)
+
+    def do_stop(tr, op):
         fn = {'abort': tm.abort, 'pause': tm.pause, 'remove': tm.remove}[op]
         pend = [k for (task, k, coro) in nego if not task.done() and bound_transfer(coro) is tr]
         stop_state['pending_at_stop'] = sorted(pend)
@@ -542,6 +569,10 @@ def _run(world: World, plan):
         if not stop_state['issued']:
             stop_state['trigger_event'] = 'time'
             issue_stop()
+        t_pre = loop.time() + 30.0
+        while stop_state['call'] is None and stop_state['issued'] and plan['stop'].get('pre_pause') is not None \
+                and loop.time() < t_pre:
+            await asyncio.sleep(0.05)     # the judged call follows the pause
         call = stop_state['call']
         if call is None:
             results['no_target'] = True
